@@ -70,7 +70,7 @@ Proof.
   intros HI Hp H e dest.
   pose proof (inv_wf _ _ HI) as Hwf. pose proof (inv_index _ _ HI) as PI.
   pose proof (inv_earn _ _ HI) as P. pose proof (sframe_withdraw _ _ _ _ _ H) as Hsf.
-  destruct (withdraw_inv _ _ _ _ _ _ PI P H) as (_ & Ho & s3 & Et & ->).
+  destruct (withdraw_inv _ _ _ _ _ _ (inv_wd _ _ HI) PI P H) as (_ & Ho & s3 & Et & ->).
   assert (E0 : (prov =? 0) = false) by (now apply Z.eqb_neq). specialize (Ho E0).
   unfold withdraw_amount, withdraw_books, withdraw_dest in *. rewrite E0 in Et |- *.
   fold e dest in Et |- *. cbv zeta in Et. fold e in Et.
@@ -125,7 +125,7 @@ Proof.
   intros HI H oe dest.
   pose proof (inv_wf _ _ HI) as Hwf. pose proof (inv_index _ _ HI) as PI.
   pose proof (inv_earn _ _ HI) as P. pose proof (sframe_withdraw _ _ _ _ _ H) as Hsf.
-  destruct (withdraw_inv _ _ _ _ _ _ PI P H) as (_ & _ & s3 & Et & ->).
+  destruct (withdraw_inv _ _ _ _ _ _ (inv_wd _ _ HI) PI P H) as (_ & _ & s3 & Et & ->).
   unfold withdraw_amount, withdraw_books, withdraw_dest in *.
   change (0 =? 0) with true in Et |- *. cbv iota in Et |- *. fold oe dest in Et |- *.
   assert (Hwe : wf (earned s)) by apply Hwf. assert (Hwo : wf (own_earned s)) by apply Hwf.
